@@ -17,6 +17,7 @@ Decided clauses:
   R16.5 (E11, per-iteration flows) sodium_unpad remembers what it scanned: a loop-carried value other than the verdict receives bit k
         of every scanned byte in its bit k (an OR-accumulator) and each of its bits can influence the verdict of a later
         iteration - the structural part of "the marker is followed only by zeros".
+  R16.7 (E12) no 64-bit quantity of the padding arithmetic is narrowed unless the dropped bits are known zero.
   R16.6 (E16) sodium_pad / sodium_unpad write no static object (re-entrancy).
 NOT decided: position of the 0x80 marker, round-trip, the rest of the rejection set (value-level).
 """
@@ -123,6 +124,26 @@ def run(ctx, chk):
     # unrelated buffers clears data bytes / keeps stale ones
     from .. import staticstate
     staticstate.static_state_rule(prog, chk, "R16.6", ("sodium/utils.c",), floor=2, only_functions=("sodium_pad", "sodium_unpad"))
+    # R16.7: "for every block size": no size_t quantity of the padding arithmetic is narrowed with loss (E12). A `blocksize - 1` kept
+    # in an unsigned char pads correctly up to 256-byte blocks and to the wrong length beyond.
+    from .. import knownbits
+    n167 = 0
+    for name in ("sodium_pad", "sodium_unpad"):
+        f = prog.need(name, rule="R16.7")
+        zero = knownbits.analyse(f)
+        for i, ins in enumerate(f.insts):
+            if ins["op"] != "trunc" or ins.get("srcbits") != 64:
+                continue
+            n167 += 1
+            db = int(ins["ty"][1:])
+            dropped = ((1 << 64) - 1) & ~((1 << db) - 1)
+            src = ins["ops"][0]
+            z = zero.get(src[1], 0) if src[0] == "v" else (~src[1] & ((1 << 64) - 1) if src[0] == "i" else 0)
+            ok = (z & dropped) == dropped
+            chk.ob("R16.7", f, "narrowing of a size_t value to %d bits at %s drops only bits that are always zero" % (db, f.loc(i)), ok, loc=f.loc(i),
+                   detail="" if ok else "the high %d bits of the operand are not known to be zero: block sizes / lengths above %d are "
+                   "silently reduced modulo 2^%d" % (64 - db, (1 << db) - 1, db), key="R16.7 %s trunc" % name)
+    chk.floor("R16.7", "narrowings of 64-bit values in sodium_pad / sodium_unpad", n167, 2)
 
 
 def width_rule(ctx, prog, chk):
